@@ -28,11 +28,18 @@ _error_codes: list[int] | None = None
 
 
 def error_codes() -> list[int]:
+    """The error codes of Kafka 3.9.0 - from the pinned table (pins/error-codes.txt), not from the enum of the tree under test: which codes
+    a conforming peer may send is not for kio to say."""
     global _error_codes
     if _error_codes is None:
-        from kio.schema.errors import ErrorCode
+        from . import common
 
-        _error_codes = sorted(int(e) for e in ErrorCode)
+        try:
+            _error_codes = sorted(int(ln.split()[0]) for ln in (common.VERIF / "pins" / "error-codes.txt").read_text().splitlines() if ln.strip())
+        except (OSError, ValueError):
+            from kio.schema.errors import ErrorCode
+
+            _error_codes = sorted(int(e) for e in ErrorCode)
     return _error_codes
 
 
@@ -239,7 +246,7 @@ class Gen:
     # ----- cells ------------------------------------------------------------------
     def cells(self, fs: FieldSpec) -> list[str]:
         if fs.array:
-            out = ["empty", "one", "many"] + list(ARRAY_BOUNDARY_CELLS) + (["n1024", "n2048", "n16383"] if fs.kind == "prim" and self.long_arrays else []) + (["null"] if fs.nullable else [])
+            out = ["empty", "one", "many"] + list(ARRAY_BOUNDARY_CELLS) + (["n1024", "n2048", "n16383", "n70000"] if fs.kind == "prim" and self.long_arrays else []) + (["null"] if fs.nullable else [])
         elif fs.kind == "struct":
             out = ["value"] + (["null"] if fs.nullable else [])
         else:
@@ -362,7 +369,12 @@ class Gen:
         candidates = [t for t in range(0, top + 4) if t not in known]
         candidates += [127, 128, 129, 255, 16383, 16384, 2**21, 2**28, 2**31 - 1]
         candidates = sorted(set(t for t in candidates if t not in known))
-        n = self.rng.randint(1, 3) if n is None else n
+        if n is None:
+            n = self.rng.randint(1, 3)
+            if self.rng.random() < 0.03:
+                n = self.rng.choice((8, 33, 127, 128, 200))  # the count itself grows to a two-byte varint at 128
+        if n > len(candidates):
+            candidates += [t for t in range(1000, 1000 + 2 * n, 2) if t not in known]
         tags = self.rng.sample(candidates, min(n, len(candidates)))
         out = []
         for t in tags:
